@@ -35,6 +35,32 @@ def replay_blockshape(req, tmp):
         if valid:
             return dict(reproduced=True, detail='%s: define_blockshape raised %s for a valid setting' % (what, type(e).__name__), extra=dict(outcome='rejected-valid'))
         return dict(reproduced=False, detail='%s rejected (%s)' % (what, type(e).__name__))
+    # the conversion runs in a forked child: an accepted invalid layout can take the interpreter down (SIGSEGV inside
+    # the compressor), which is an observation about the real code, not a replay failure
+    import json
+    import signal
+    resf = os.path.join(tmp, 'child.json')
+    pid = os.fork()
+    if pid == 0:
+        rc = 1
+        try:
+            r_ = _convert_and_read(what, rate, rbs, bpv, bs, is2d, out, tmp)
+            with open(resf, 'w') as fh:
+                json.dump(r_, fh)
+            rc = 0
+        finally:
+            os._exit(rc)
+    _, status = os.waitpid(pid, 0)
+    if os.WIFSIGNALED(status):
+        return dict(reproduced=True, detail='%s: define_blockshape accepted it as (%s, %s); the conversion then killed the interpreter (signal %d)' % (
+            what, rate, rbs, os.WTERMSIG(status)), extra=dict(outcome='crashed'))
+    if not os.path.exists(resf):
+        return dict(reproduced=False, detail='%s: replay child failed' % what, harness_error=True)
+    with open(resf) as fh:
+        return json.load(fh)
+
+
+def _convert_and_read(what, rate, rbs, bpv, bs, is2d, out, tmp):
     try:
         if is2d:
             from replay.segymake import make_segy
